@@ -238,9 +238,24 @@ impl TupleVisitor for BatchV<'_> {
     type Out = Vec<Entity>;
     fn visit<B: TupleB>(self) -> Vec<Entity> {
         let items: Vec<B> = self.1.iter().map(|v| B::from_vals(v)).collect();
-        self.0.spawn_batch(items).collect()
+        let n = items.len();
+        drain_handles(self.0.spawn_batch(items), n, "spawn_batch")
     }
 }
+/// One jump over `j` handles before a batch iterator is dropped (`nth`, which `skip` and `step_by` go through): what
+/// is left afterwards must be `j + 1` fewer, and the handle received must be a new one
+fn skip_some<I: Iterator<Item = Entity> + ExactSizeIterator>(it: &mut I, got: &[Entity], j: usize, what: &str) {
+    let before = it.len();
+    let x = it.nth(j);
+    let ok = match x {
+        Some(h) => before > j && it.len() == before - j - 1 && !got.contains(&h),
+        None => before <= j && it.len() == 0,
+    };
+    if !ok {
+        note(format!("C12: {what}: {before} handles were left, nth({j}) gave {:?} and left {}", x, it.len()));
+    }
+}
+
 /// spawn_batch whose iterator is dropped after `take` handles: Drop spawns the rest
 struct BatchPartV<'a>(&'a mut World, &'a [Vec<u64>], usize);
 impl TupleVisitor for BatchPartV<'_> {
@@ -255,16 +270,72 @@ impl TupleVisitor for BatchPartV<'_> {
                 None => break,
             }
         }
+        skip_some(&mut it, &got, self.2 % 3, "spawn_batch");
         drop(it);
         got
     }
 }
+#[derive(Clone, PartialEq, Debug)]
+struct Xa(u32);
+#[derive(Clone, PartialEq, Debug)]
+struct Xb(u64);
+#[derive(Clone, PartialEq, Debug)]
+struct Xc(u8);
+
+/// `Extend` / `FromIterator` with dynamic bundles of ONE Rust type but different component sets (a world of its own):
+/// every item must arrive with exactly its own components
+fn extend_dynamic_side(collect: bool) {
+    let r = catch_unwind(AssertUnwindSafe(|| {
+        let mut b = EntityBuilderClone::new();
+        b.add(Xa(1)).add(Xb(2));
+        let b1 = b.build();
+        let mut b = EntityBuilderClone::new();
+        b.add(Xa(3));
+        let b2 = b.build();
+        let mut b = EntityBuilderClone::new();
+        b.add(Xc(6)).add(Xa(4)).add(Xb(5));
+        let b3 = b.build();
+        let items = vec![&b1, &b2, &b3, &b1, &b2];
+        let side: World = if collect {
+            items.into_iter().collect()
+        } else {
+            let mut w = World::new();
+            w.spawn((Xb(9),));
+            w.extend(items);
+            w
+        };
+        let mut seen: Vec<(usize, Option<u32>, Option<u64>, Option<u8>)> = side
+            .iter()
+            .map(|e| (e.component_types().count(), e.get::<&Xa>().map(|x| x.0), e.get::<&Xb>().map(|x| x.0), e.get::<&Xc>().map(|x| x.0)))
+            .collect();
+        seen.sort();
+        seen
+    }));
+    let mut want = vec![
+        (2, Some(1), Some(2), None),
+        (1, Some(3), None, None),
+        (3, Some(4), Some(5), Some(6)),
+        (2, Some(1), Some(2), None),
+        (1, Some(3), None, None),
+    ];
+    if !collect {
+        want.push((1, None, Some(9), None));
+    }
+    want.sort();
+    match r {
+        Ok(seen) if seen == want => {}
+        Ok(seen) => note(format!("C10: Extend / FromIterator with dynamic bundles of different component sets: entities are {:?}, expected {:?}", seen, want)),
+        Err(_) => note("C10: Extend / FromIterator with dynamic bundles of different component sets panicked".to_string()),
+    }
+}
+
 /// Extend<B> for World
 struct ExtendV<'a>(&'a mut World, &'a [Vec<u64>]);
 impl TupleVisitor for ExtendV<'_> {
     type Out = ();
     fn visit<B: TupleB>(self) {
         let items: Vec<B> = self.1.iter().map(|v| B::from_vals(v)).collect();
+        extend_dynamic_side(items.len() % 2 == 0);
         self.0.extend(items);
     }
 }
@@ -953,6 +1024,7 @@ impl Engine {
                                 None => break,
                             }
                         }
+                        skip_some(&mut it, &got, take % 3, "spawn_column_batch");
                         drop(it);
                         got
                     }
@@ -1020,7 +1092,7 @@ impl Engine {
                     14 => dispatch_tuple(&ts, BatchV(world, &rows)).expect("tuple type not in catalogue"),
                     15 => {
                         let b = Self::make_batch(&ts, &rows).expect("complete batch");
-                        world.spawn_column_batch(b).collect::<Vec<_>>()
+                        drain_handles(world.spawn_column_batch(b), rows.len(), "spawn_column_batch")
                     }
                     _ => {
                         let b = Self::make_batch(&ts, &rows).expect("complete batch");
